@@ -80,16 +80,16 @@ func verifRollParent(scope int) (*unstructured.Unstructured, *dynamicdiscovery.A
 	return o, env.ClusterThingRes
 }
 
-// verifBool is rt.Bool made concrete by branching.
-func verifBool(tag string) bool {
+// verifC07Bool is rt.Bool made concrete by branching.
+func verifC07Bool(tag string) bool {
 	if rt.Bool(tag) {
 		return true
 	}
 	return false
 }
 
-// verifCatch runs f and reports whether it panicked.
-func verifCatch(f func()) (panicked bool) {
+// verifC07Catch runs f and reports whether it panicked.
+func verifC07Catch(f func()) (panicked bool) {
 	defer func() {
 		if r := recover(); r != nil {
 			panicked = true
@@ -285,7 +285,7 @@ func verifRollBuild(o verifRollOpts) *verifRoll {
 				rt.Assume(c.obsVal == verifDesVal)
 			}
 		} else {
-			c.observed = verifBool("observed-" + c.name)
+			c.observed = verifC07Bool("observed-" + c.name)
 			if c.observed {
 				c.obsVal = rt.String("applied-" + c.name)
 			}
@@ -295,7 +295,7 @@ func verifRollBuild(o verifRollOpts) *verifRoll {
 				c.isInt = true
 				c.gen = rt.Int64("generation-" + c.name)
 				rt.Assume(c.gen >= 1)
-				c.hasOG = verifBool("has-observedGeneration-" + c.name)
+				c.hasOG = verifC07Bool("has-observedGeneration-" + c.name)
 				if c.hasOG {
 					c.og = rt.Int64("observedGeneration-" + c.name)
 				}
@@ -303,7 +303,7 @@ func verifRollBuild(o verifRollOpts) *verifRoll {
 			if o.chk > 0 {
 				c.hasCond = true
 				if rt.Tier() > 0 {
-					c.hasCond = verifBool("has-condition-" + c.name)
+					c.hasCond = verifC07Bool("has-condition-" + c.name)
 				}
 				if c.hasCond {
 					c.ctype = rt.String("cond-type-" + c.name)
@@ -477,7 +477,7 @@ func (s *verifRoll) assertHealthy(c *verifRollChild, prefix string) {
 }
 
 func (s *verifRoll) run() {
-	s.panicked = verifCatch(func() {
+	s.panicked = verifC07Catch(func() {
 		s.err = s.pc.syncRollingUpdate(s.revs, s.obs)
 	})
 }
@@ -502,8 +502,8 @@ func (s *verifRoll) claimsIn(r int, c *verifRollChild) int {
 	return verifRollClaimCount(s.revs[r].revision, s.k.group, s.k.kind, c.rel)
 }
 
-// verifUpdatedCondition reads the `Updated` condition(s) from a hook status.
-func verifUpdatedCondition(status map[string]interface{}) (n int, cstatus, reason, message string) {
+// verifC07UpdatedCondition reads the `Updated` condition(s) from a hook status.
+func verifC07UpdatedCondition(status map[string]interface{}) (n int, cstatus, reason, message string) {
 	list, _ := status["conditions"].([]interface{})
 	for _, it := range list {
 		m, _ := it.(map[string]interface{})
@@ -609,7 +609,7 @@ func (s *verifRoll) checkStep() verifRollFacts {
 	}
 
 	// the Updated condition says what happened
-	n, cstatus, reason, message := verifUpdatedCondition(s.revs[0].syncResult.Status)
+	n, cstatus, reason, message := verifC07UpdatedCondition(s.revs[0].syncResult.Status)
 	rt.Assert(n == 1, s.lab("condition/not-exactly-one-updated-condition"))
 	switch {
 	case len(f.pending) == 0:
@@ -661,7 +661,7 @@ func (s *verifRoll) foreignClaims() bool {
 	return foreign
 }
 
-func verifMethodChoice() string {
+func verifC07Method() string {
 	if rt.Choice("method", 2) == 0 {
 		return verifRollingInPlace
 	}
@@ -673,7 +673,7 @@ func verifMethodChoice() string {
 func VerifC07_RollingStep() {
 	o := verifRollOpts{status: map[string]interface{}{"replicas": int64(2)}}
 	o.scope = rt.Choice("scope", 3)
-	o.method = verifMethodChoice()
+	o.method = verifC07Method()
 	if rt.Tier() == 0 {
 		// quick: 2 children, latest + one old revision, named API group only for
 		// the cluster parent with namespaced children, check = none or full
@@ -684,10 +684,10 @@ func VerifC07_RollingStep() {
 	} else {
 		o.n, o.nOld = 3, 2
 		if o.scope != verifScopeCluster {
-			o.named = verifBool("named-group")
+			o.named = verifC07Bool("named-group")
 		}
 		o.chk = rt.Choice("check", 5)
-		o.reversed = verifBool("hook-order-reversed")
+		o.reversed = verifC07Bool("hook-order-reversed")
 	}
 	s := verifRollBuild(o)
 	s.run()
@@ -721,7 +721,7 @@ func VerifC07_Claims() {
 	vtag := []string{"none", "undesired-in-latest-group", "undesired-in-old-group", "undesired-alone-in-latest", "undesired-alone-in-old2", "non-rolling-kind", "also-listed-by-old-group", "also-listed-alone-by-old2"}[variant]
 	zObserved := false
 	if variant >= 1 && variant <= 4 {
-		zObserved = verifBool("undesired-child-still-observed")
+		zObserved = verifC07Bool("undesired-child-still-observed")
 	}
 
 	pod := env.Obj("v1", "Pod", "", "x", "")
@@ -792,20 +792,22 @@ func VerifC07_Claims() {
 	}
 	rt.Cover("claims-" + vtag)
 	rt.Assert(s.err == nil, lab("error-returned"))
-	for r, pr := range s.revs {
+	for _, pr := range s.revs {
 		rt.Assert(verifRollClaimCount(pr.revision, g, k, "z") == 0, lab("claim-of-undesired-child-kept"))
 		rt.Assert(verifRollClaimCount(pr.revision, "", "Pod", "x") == 0, lab("claim-of-non-rolling-kind-kept"))
-		if r > 0 {
-			rt.Assert(s.claimsIn(r, a) == 0, lab("child-on-latest-still-listed-by-old-revision"))
-			rt.Assert(s.claimsIn(r, b) == 0, lab("moved-child-still-listed-by-old-revision"))
-		}
 	}
 	rt.Assert(s.claimsIn(0, a) == 1, lab("child-on-latest-dropped"))
+	rt.Assert(s.claimsIn(1, a)+s.claimsIn(2, a) == 0, lab("child-on-latest-still-listed-by-old-revision"))
 	// a is healthy and b is the only child left: it moves
-	rt.Assert(s.claimsIn(0, b) == 1, lab("waits-although-child-on-latest-is-healthy"))
-	n, cstatus, reason, _ := verifUpdatedCondition(s.revs[0].syncResult.Status)
-	rt.Assert(n == 1, lab("not-exactly-one-updated-condition"))
-	rt.Assert(cstatus == "False" && reason == "RolloutProgressing", lab("moved-but-not-progressing"))
+	if s.claimsIn(0, b) == 0 {
+		rt.Assert(false, lab("waits-although-child-on-latest-is-healthy"))
+	} else {
+		rt.Assert(s.claimsIn(0, b) == 1, lab("moved-child-listed-twice"))
+		rt.Assert(s.claimsIn(1, b)+s.claimsIn(2, b) == 0, lab("moved-child-still-listed-by-old-revision"))
+		n, cstatus, reason, _ := verifC07UpdatedCondition(s.revs[0].syncResult.Status)
+		rt.Assert(n == 1, lab("not-exactly-one-updated-condition"))
+		rt.Assert(cstatus == "False" && reason == "RolloutProgressing", lab("moved-but-not-progressing"))
+	}
 	rt.Observe("err", s.err != nil)
 	rt.Observe("b-moved", s.claimsIn(0, b))
 }
@@ -855,7 +857,7 @@ func VerifC07_Condition() {
 	rt.Cover("condition-" + stag)
 	rt.Assert(s.err == nil, lab("error-returned"))
 	got := s.revs[0].syncResult.Status
-	n, cstatus, reason, message := verifUpdatedCondition(got)
+	n, cstatus, reason, message := verifC07UpdatedCondition(got)
 	rt.Assert(n == 1, lab("not-exactly-one-updated-condition"))
 	wantStatus, wantReason := "False", "RolloutWaiting"
 	switch outcome {
@@ -951,16 +953,16 @@ var verifPatchPaths = []string{"spec", "spec.a", "spec.b", "metadata.labels"}
 // with one string) and c (string); status.s.
 func verifPatchParent(tag string) map[string]interface{} {
 	md := map[string]interface{}{"name": "p"}
-	if verifBool(tag + "-has-labels") {
+	if verifC07Bool(tag + "-has-labels") {
 		md["labels"] = map[string]interface{}{"l": rt.String(tag + "-label")}
 	}
 	obj := map[string]interface{}{"apiVersion": "ex.com/v1", "kind": "Thing", "metadata": md, "status": map[string]interface{}{"s": rt.String(tag + "-status")}}
-	if verifBool(tag + "-has-spec") {
+	if verifC07Bool(tag + "-has-spec") {
 		spec := map[string]interface{}{"c": rt.String(tag + "-c")}
-		if verifBool(tag + "-has-a") {
+		if verifC07Bool(tag + "-has-a") {
 			spec["a"] = rt.String(tag + "-a")
 		}
-		if verifBool(tag + "-has-b") {
+		if verifC07Bool(tag + "-has-b") {
 			spec["b"] = map[string]interface{}{"x": rt.String(tag + "-bx")}
 		}
 		obj["spec"] = spec
@@ -968,8 +970,8 @@ func verifPatchParent(tag string) map[string]interface{} {
 	return obj
 }
 
-// verifLeaf looks a dotted leaf path up by hand.
-func verifLeaf(obj map[string]interface{}, path string) (string, bool) {
+// verifC07Leaf looks a dotted leaf path up by hand.
+func verifC07Leaf(obj map[string]interface{}, path string) (string, bool) {
 	var cur interface{} = obj
 	for _, p := range strings.Split(path, ".") {
 		m, ok := cur.(map[string]interface{})
@@ -985,7 +987,7 @@ func verifLeaf(obj map[string]interface{}, path string) (string, bool) {
 	return sv, ok
 }
 
-func verifCovered(leaf string, paths []string) bool {
+func verifC07Covered(leaf string, paths []string) bool {
 	for _, p := range paths {
 		if leaf == p || strings.HasPrefix(leaf, p+".") {
 			return true
@@ -994,7 +996,7 @@ func verifCovered(leaf string, paths []string) bool {
 	return false
 }
 
-func verifHasPath(obj map[string]interface{}, path string) bool {
+func verifC07HasPath(obj map[string]interface{}, path string) bool {
 	var cur interface{} = obj
 	for _, p := range strings.Split(path, ".") {
 		m, ok := cur.(map[string]interface{})
@@ -1044,7 +1046,7 @@ func VerifC07_PatchLemma() {
 	// a revisioned path the old parent did not have but the latest has
 	absent := false
 	for _, p := range paths {
-		if !verifHasPath(old, p) && verifHasPath(latest, p) {
+		if !verifC07HasPath(old, p) && verifC07HasPath(latest, p) {
 			absent = true
 		}
 	}
@@ -1057,11 +1059,11 @@ func VerifC07_PatchLemma() {
 	}
 	for _, leaf := range []string{"metadata.name", "metadata.labels.l", "spec.a", "spec.b.x", "spec.c", "status.s", "kind"} {
 		src, what := latest, "outside-field-paths-differs-from-latest"
-		if verifCovered(leaf, paths) {
+		if verifC07Covered(leaf, paths) {
 			src, what = old, "inside-field-paths-differs-from-revision"
 		}
-		want, wantOK := verifLeaf(src, leaf)
-		got, gotOK := verifLeaf(mat, leaf)
+		want, wantOK := verifC07Leaf(src, leaf)
+		got, gotOK := verifC07Leaf(mat, leaf)
 		rt.Assert(gotOK == wantOK, pre+what)
 		if gotOK && wantOK {
 			rt.Assert(got == want, pre+what)
@@ -1072,8 +1074,8 @@ func VerifC07_PatchLemma() {
 	rt.Assert(err == nil, "patch/make-error")
 	if err == nil && !absent {
 		for _, leaf := range []string{"metadata.labels.l", "spec.a", "spec.b.x", "spec.c"} {
-			want, wantOK := verifLeaf(q, leaf)
-			got, gotOK := verifLeaf(q2, leaf)
+			want, wantOK := verifC07Leaf(q, leaf)
+			got, gotOK := verifC07Leaf(q2, leaf)
 			rt.Assert(gotOK == wantOK, pre+"roundtrip-differs")
 			if gotOK && wantOK {
 				rt.Assert(got == want, pre+"roundtrip-differs")
@@ -1087,12 +1089,12 @@ func VerifC07_PatchLemma() {
 
 // ---------------------------------------------------------------- status check / SetCondition
 
-func verifCondList(tag string, n int) (list []interface{}, ctype, cstatus, creason []string, hasReason []bool) {
+func verifC07CondList(tag string, n int) (list []interface{}, ctype, cstatus, creason []string, hasReason []bool) {
 	for i := 0; i < n; i++ {
 		it := tag + string(rune('0'+i))
 		t, st := rt.String(it+"-type"), rt.String(it+"-status")
 		m := map[string]interface{}{"type": t, "status": st}
-		re, has := "", verifBool(it+"-has-reason")
+		re, has := "", verifC07Bool(it+"-has-reason")
 		if has {
 			re = rt.String(it + "-reason")
 			m["reason"] = re
@@ -1121,11 +1123,11 @@ func verifStatusCheckTable() {
 		child.Object["status"] = map[string]interface{}{"phase": "x"}
 	case 2:
 		var list []interface{}
-		list, ctype, cstatus, creason, _ = verifCondList("cond", 1)
+		list, ctype, cstatus, creason, _ = verifC07CondList("cond", 1)
 		child.Object["status"] = map[string]interface{}{"conditions": list}
 	case 3:
 		var list []interface{}
-		list, ctype, cstatus, creason, _ = verifCondList("cond", 2)
+		list, ctype, cstatus, creason, _ = verifC07CondList("cond", 2)
 		child.Object["status"] = map[string]interface{}{"conditions": list}
 	}
 	nChecks := rt.Choice("checks", 3+rt.Tier()) // 0: nil, 1: empty, 2: one, 3: two (thorough)
@@ -1136,11 +1138,11 @@ func verifStatusCheckTable() {
 	for i := 0; i < nChecks-1; i++ {
 		it := "check" + string(rune('0'+i))
 		ck := v1alpha1.StatusConditionCheck{Type: rt.String(it + "-type")}
-		if verifBool(it + "-has-status") {
+		if verifC07Bool(it + "-has-status") {
 			v := rt.String(it + "-status")
 			ck.Status = &v
 		}
-		if verifBool(it + "-has-reason") {
+		if verifC07Bool(it + "-has-reason") {
 			v := rt.String(it + "-reason")
 			ck.Reason = &v
 		}
@@ -1194,7 +1196,7 @@ func verifSetConditionLaws() {
 	status := map[string]interface{}{"replicas": int64(3)}
 	var ctype, cstatus []string
 	if shape > 0 {
-		list, t, st, _, _ := verifCondList("have", shape-1)
+		list, t, st, _, _ := verifC07CondList("have", shape-1)
 		ctype, cstatus = t, st
 		if list == nil {
 			list = []interface{}{}
